@@ -119,7 +119,21 @@ impl ObjectWriter for ObjectWriterFS {
         let relative_path = content_location_path
             .strip_prefix('/')
             .unwrap_or(content_location_path);
-        let destination = self.dest.join(relative_path);
+        // The content location comes from the network: the object must stay inside the
+        // destination folder, whatever '..', absolute or double-slash path it contains
+        let mut destination = self.dest.clone();
+        for component in std::path::Path::new(relative_path).components() {
+            match component {
+                std::path::Component::Normal(name) => destination.push(name),
+                std::path::Component::CurDir => {}
+                _ => {
+                    return Err(FluteError::new(format!(
+                        "Content location {:?} is outside of the destination folder",
+                        self.meta.content_location
+                    )));
+                }
+            }
+        }
         log::info!(
             "Create destination {:?} {:?} {:?}",
             self.dest,
